@@ -7,6 +7,9 @@ os.makedirs(dst, exist_ok=True)
 shutil.copy(os.path.join(ch, "patch.diff"), os.path.join(dst, "patch.diff"))
 shutil.copy(os.path.join(ch, "demo.py"), os.path.join(dst, "demo.py"))
 notes = open(os.path.join(ch, "notes.md")).read() if os.path.exists(os.path.join(ch, "notes.md")) else ""
+if not notes and os.path.exists(os.path.join(ch, "meta.json")):
+    am = json.load(open(os.path.join(ch, "meta.json")))
+    notes = "Change: %s\nNeeds: %s\npytest tail with the change applied: %s" % (am.get("description", ""), am.get("trigger", ""), am.get("tests_tail", ""))
 meta = {
     "id": sid, "breaks_property": prop,
     "needs_to_manifest": notes.strip(),
